@@ -57,6 +57,7 @@ deriving DecidableEq, Repr
 structure Env where
   translate : List ((Nat × Nat × Nat) × Nat) := []   -- (bind, mount point, path) ↦ normpath(join(bind, relpath(path, mount)))
   sizes : List ((Nat × Nat) × Rat) := []             -- (deployment, path) ↦ size in MB of the directory
+  failing : List (Nat × Nat) := []                   -- (deployment, path) whose disk-usage probe fails (non-zero status)
 deriving Repr
 
 def assocGet {κ β} [DecidableEq κ] : List (κ × β) → κ → Option β
@@ -290,14 +291,20 @@ def usageDisks (env : Env) (dep : Nat) : StorageMap → Except SErr StorageMap
       let r ← usageDisks env dep rest
       pure ((k, s) :: r)
 
-/-- `for loc in locations: if loc.name in self.hardware_locations: …` at one level -/
+/-- `get_storage_usages` raises (`_check_status` on a non-zero status of the `find … | awk` command) when the probe of
+    some storage of the job fails; storages without paths are not probed (`_size` returns 0 for an empty path list) -/
+def probeFails (env : Env) (dep : Nat) (st : StorageMap) : Bool :=
+  st.any (fun kd => kd.2.paths.any (fun p => env.failing.contains (dep, p)))
+
+/-- `for loc in locations: if loc.name in self.hardware_locations: …` at one level; when the probe raises
+    WorkflowExecutionException the handler sets `storage_usage = Hardware()` and the subtraction still happens -/
 def freeLevel (env : Env) (jobHw : Hardware) : List Level → St → St × Option SErr
   | [], s => (s, none)
   | lvl :: rest, s =>
       match assocGet s.reserved lvl.name with
       | none => freeLevel env jobHw rest s
       | some cur =>
-        match usageDisks env lvl.dep jobHw.storage with
+        match (if probeFails env lvl.dep jobHw.storage then .ok [] else usageDisks env lvl.dep jobHw.storage) with
         | .error e => (s, some e)
         | .ok ust =>
           let usage := mkHardware 0 0 ust
